@@ -381,6 +381,9 @@ Proof.
   - (* Assign *)
     destruct (nth_error (s_calls s) c) as [cl|] eqn:N; [|discriminate].
     destruct (c_ph cl) eqn:Ph; try discriminate.
+    destruct (closed s).
+    { inversion H; subst; clear H. split; [exact Hp|split; [|exact Hj]]; simpl.
+      apply calls_ok_upd; auto. simpl; discriminate. }
     destruct (assign_all cfg (s_pws s) (s_wg s) (c_msgs cl)) as [[pws wg] refs] eqn:A.
     inversion H; subst; clear H. split; [|split; [|exact Hj]]; simpl.
     + eapply assign_all_ok; eauto. apply Hc; [eapply nth_error_In; eauto|exact Ph].
